@@ -1,7 +1,8 @@
 /-
   C01 — Validate decides exactly the validity relation of the Spec (draft 2020-12 and draft-07 are
   both covered: the draft is a field of the environment).  Property theorems only; the proofs are in
-  JSV/Proofs/Refine*.lean.
+  JSV/Proofs/Refine*.lean.  Section "algebraic laws": what the validity relation — and, through the refinement, the
+  evaluator — satisfies for every schema and instance (helper lemmas: JSV/Proofs/SpecLaws*.lean).
 -/
 import JSV.Proofs.Refine
 import JSV.Proofs.RefineMono
@@ -11,6 +12,10 @@ import JSV.Proofs.Defined
 import JSV.Proofs.DefinedGuarded
 import JSV.Proofs.FloatMult
 import JSV.Generated.Facts
+import JSV.Proofs.SpecLaws
+import JSV.Proofs.SpecLawsCongr
+import JSV.Proofs.SpecLawsScope
+import JSV.Proofs.SpecLawsSplit
 namespace JSV.C01
 open JSV Go GoVal Refine
 
@@ -535,5 +540,997 @@ theorem unevaluated_after_in_place :
       "AdditionalItems", "Contains"].all fun k =>
         Generated.validateReadOrder.idxOf k < Generated.validateReadOrder.idxOf "UnevaluatedItems") = true := by
   decide
+
+/-! ## algebraic laws
+
+Laws of JSON-Schema validity that every reader of the specification expects, proved of the Spec for EVERY environment,
+fuel, dynamic scope and instance, and transferred to the evaluator through `validate_refines_spec`.  A law speaks of the
+content of schema objects of the store: `Laws.keywords n = { allOf := some [t] }` says that the only keyword of `n` that
+validation reads is `allOf: [t]` (`$id`, `$defs`, `title`, `default`, `format` … may be present).  An application at the
+object `s` with scope `scope` applies the subschemas of `s` with scope `scope ++ [s]` and one unit of fuel less; the laws are
+equalities of the three-valued outcomes (`none`: undefined with this fuel, `some none`: invalid, `some (some ev)`: valid
+with evaluated sets `ev`), so they hold "whenever defined" and also preserve undefinedness.  The evaluator corollaries
+(`…_go`) assume that the Spec decides the subschema application (`C01.spec_defined` gives that for guarded schemas). -/
+
+section laws
+variable (env : Spec.Env) (fuel : Nat) (scope : List NodeId) (s : NodeId) (n : Node) (j : Json)
+
+/-! ### 1. `true` and `false` -/
+
+/-- `true` / `{}`: a schema object without validation keywords accepts every instance and evaluates nothing -/
+theorem true_accepts (hn : env.st.get? s = some n) (hk : Laws.keywords n = {}) :
+    Spec.evalFuel env (fuel + 1) scope s j = some (some {}) := by
+  rw [Laws.evalFuel_succ_of env fuel scope s j n {} hn hk, Laws.specBody_empty]
+
+/-- `false` / `{"not": {}}` (what `false` is unmarshalled to) rejects every instance -/
+theorem false_rejects (t : NodeId) (m : Node) (hn : env.st.get? s = some n) (hk : Laws.keywords n = { not := some t })
+    (hm : env.st.get? t = some m) (hkm : Laws.keywords m = {}) :
+    Spec.evalFuel env (fuel + 2) scope s j = some none := by
+  rw [Laws.evalFuel_succ_of env (fuel + 1) scope s j n _ hn hk, Laws.specBody_not,
+    Laws.kwNot_eq _ _ _ t rfl, true_accepts env fuel _ t m j hm hkm]
+  rfl
+
+/-! ### 2. `allOf`, `anyOf`, `oneOf` with one branch or none -/
+
+/-- `allOf [t]` is `t`: same verdict, same evaluated sets (`t` applied with `s` on the dynamic scope) -/
+theorem allOf_singleton (t : NodeId) (hn : env.st.get? s = some n) (hk : Laws.keywords n = { allOf := some [t] }) :
+    Spec.evalFuel env (fuel + 1) scope s j = Spec.evalFuel env fuel (scope ++ [s]) t j := by
+  rw [Laws.evalFuel_succ_of env fuel scope s j n _ hn hk, Laws.specBody_allOf, Laws.kwAllOf_single _ _ _ t rfl]
+
+/-- `anyOf [t]` is `t` -/
+theorem anyOf_singleton (t : NodeId) (hn : env.st.get? s = some n) (hk : Laws.keywords n = { anyOf := some [t] }) :
+    Spec.evalFuel env (fuel + 1) scope s j = Spec.evalFuel env fuel (scope ++ [s]) t j := by
+  rw [Laws.evalFuel_succ_of env fuel scope s j n _ hn hk, Laws.specBody_anyOf, Laws.kwAnyOf_single _ _ _ t rfl]
+
+/-- `oneOf [t]` is `t` -/
+theorem oneOf_singleton (t : NodeId) (hn : env.st.get? s = some n) (hk : Laws.keywords n = { oneOf := some [t] }) :
+    Spec.evalFuel env (fuel + 1) scope s j = Spec.evalFuel env fuel (scope ++ [s]) t j := by
+  rw [Laws.evalFuel_succ_of env fuel scope s j n _ hn hk, Laws.specBody_oneOf, Laws.kwOneOf_single _ _ _ t rfl]
+
+/-- `allOf []` accepts every instance (and evaluates nothing) -/
+theorem allOf_empty (hn : env.st.get? s = some n) (hk : Laws.keywords n = { allOf := some [] }) :
+    Spec.evalFuel env (fuel + 1) scope s j = some (some {}) := by
+  rw [Laws.evalFuel_succ_of env fuel scope s j n _ hn hk, Laws.specBody_allOf, Laws.kwAllOf_nil _ _ _ rfl]
+
+/-- `anyOf []` rejects every instance -/
+theorem anyOf_empty (hn : env.st.get? s = some n) (hk : Laws.keywords n = { anyOf := some [] }) :
+    Spec.evalFuel env (fuel + 1) scope s j = some none := by
+  rw [Laws.evalFuel_succ_of env fuel scope s j n _ hn hk, Laws.specBody_anyOf, Laws.kwAnyOf_nil _ _ _ rfl]
+
+/-- `oneOf []` rejects every instance -/
+theorem oneOf_empty (hn : env.st.get? s = some n) (hk : Laws.keywords n = { oneOf := some [] }) :
+    Spec.evalFuel env (fuel + 1) scope s j = some none := by
+  rw [Laws.evalFuel_succ_of env fuel scope s j n _ hn hk, Laws.specBody_oneOf, Laws.kwOneOf_nil _ _ _ rfl]
+
+/-! ### 3. double negation -/
+
+/-- `not (not t)`: the verdict of `t`, and NOTHING evaluated (annotations do not survive `not`; `C07.not_not_drops_annotations`
+    states the evaluator half) -/
+theorem not_not (m : NodeId) (nm : Node) (t : NodeId) (hn : env.st.get? s = some n)
+    (hk : Laws.keywords n = { not := some m }) (hm : env.st.get? m = some nm) (hkm : Laws.keywords nm = { not := some t }) :
+    Spec.evalFuel env (fuel + 2) scope s j
+      = (Spec.evalFuel env fuel (scope ++ [s] ++ [m]) t j).map fun r => r.map fun _ => {} := by
+  rw [Laws.evalFuel_succ_of env (fuel + 1) scope s j n _ hn hk, Laws.specBody_not, Laws.kwNot_eq _ _ _ m rfl,
+    Laws.evalFuel_succ_of env fuel _ m j nm _ hm hkm, Laws.specBody_not, Laws.kwNot_eq _ _ _ t rfl]
+  cases Spec.evalFuel env fuel (scope ++ [s] ++ [m]) t j with
+  | none => rfl
+  | some r => cases r <;> rfl
+
+/-- in particular `not (not t)` and `t` have the same verdict -/
+theorem not_not_verdict (m : NodeId) (nm : Node) (t : NodeId) (hn : env.st.get? s = some n)
+    (hk : Laws.keywords n = { not := some m }) (hm : env.st.get? m = some nm) (hkm : Laws.keywords nm = { not := some t }) :
+    (Spec.evalFuel env (fuel + 2) scope s j).map (·.isSome)
+      = (Spec.evalFuel env fuel (scope ++ [s] ++ [m]) t j).map (·.isSome) := by
+  rw [not_not env fuel scope s n j m nm t hn hk hm hkm]
+  cases Spec.evalFuel env fuel (scope ++ [s] ++ [m]) t j with
+  | none => rfl
+  | some r => cases r <;> rfl
+
+/-! ### 4. `anyOf` / `allOf` read their branches as a set, `oneOf` counts
+
+Stated for a branch list ANYWHERE in a schema: the store with the object at `s` overwritten
+(`env.st.setIfInBounds s { n with anyOf := … }`) against the original store, for every schema `root` of the store. -/
+
+/-- reordering, repeating or deduplicating the branches of an `anyOf` anywhere in a schema changes neither the definedness
+    nor the verdict of any schema of the store, on any instance -/
+theorem anyOf_set_invariant (hwf : StoreWF env.st) (ss ss' : List NodeId) (hn : env.st.get? s = some n)
+    (h : n.anyOf = some ss) (hset : ∀ t, t ∈ ss ↔ t ∈ ss') (root : NodeId) (hj : Json.WF j = true) :
+    (Spec.evalFuel { env with st := env.st.setIfInBounds s { n with anyOf := some ss' } } fuel scope root j).map (·.isSome)
+      = (Spec.evalFuel env fuel scope root j).map (·.isSome) :=
+  Laws.evalFuel_set_verdict env s n _ hn (Laws.NodeEqv_anyOf env s n ss ss' h hset) hwf fuel scope root j hj
+
+/-- … and the evaluated properties / items are the same sets -/
+theorem anyOf_set_invariant_evaluated (hwf : StoreWF env.st) (ss ss' : List NodeId) (hn : env.st.get? s = some n)
+    (h : n.anyOf = some ss) (hset : ∀ t, t ∈ ss ↔ t ∈ ss') (root : NodeId) (hj : Json.WF j = true) (e e' : Spec.Ev)
+    (h1 : Spec.evalFuel env fuel scope root j = some (some e))
+    (h2 : Spec.evalFuel { env with st := env.st.setIfInBounds s { n with anyOf := some ss' } } fuel scope root j
+      = some (some e')) :
+    (∀ k, k ∈ e.props ↔ k ∈ e'.props) ∧ (∀ i, i ∈ e.items ↔ i ∈ e'.items) :=
+  Laws.evalFuel_set_evaluated env s n _ hn (Laws.NodeEqv_anyOf env s n ss ss' h hset) hwf fuel scope root j hj e e' h1 h2
+
+/-- the same for `allOf` -/
+theorem allOf_set_invariant (hwf : StoreWF env.st) (ss ss' : List NodeId) (hn : env.st.get? s = some n)
+    (h : n.allOf = some ss) (hset : ∀ t, t ∈ ss ↔ t ∈ ss') (root : NodeId) (hj : Json.WF j = true) :
+    (Spec.evalFuel { env with st := env.st.setIfInBounds s { n with allOf := some ss' } } fuel scope root j).map (·.isSome)
+      = (Spec.evalFuel env fuel scope root j).map (·.isSome) :=
+  Laws.evalFuel_set_verdict env s n _ hn (Laws.NodeEqv_allOf env s n ss ss' h hset) hwf fuel scope root j hj
+
+/-- `oneOf` is invariant under reordering its branches (not under repetition: `oneOf_double_rejects`) -/
+theorem oneOf_perm_invariant (hwf : StoreWF env.st) (ss ss' : List NodeId) (hn : env.st.get? s = some n)
+    (h : n.oneOf = some ss) (hp : ss.Perm ss') (root : NodeId) (hj : Json.WF j = true) :
+    (Spec.evalFuel { env with st := env.st.setIfInBounds s { n with oneOf := some ss' } } fuel scope root j).map (·.isSome)
+      = (Spec.evalFuel env fuel scope root j).map (·.isSome) :=
+  Laws.evalFuel_set_verdict env s n _ hn (Laws.NodeEqv_oneOf env s n ss ss' h hp) hwf fuel scope root j hj
+
+/-- `oneOf [t, t]` rejects every instance on which `t` is defined — in particular whatever `t` accepts -/
+theorem oneOf_double_rejects (t : NodeId) (hn : env.st.get? s = some n) (hk : Laws.keywords n = { oneOf := some [t, t] }) :
+    Spec.evalFuel env (fuel + 1) scope s j = (Spec.evalFuel env fuel (scope ++ [s]) t j).map fun _ => none := by
+  rw [Laws.evalFuel_succ_of env fuel scope s j n _ hn hk, Laws.specBody_oneOf, Laws.kwOneOf_double _ _ _ t rfl]
+
+/-! ### 5. `if` / `then` / `else` -/
+
+/-- `if c then t else e` where `c` holds: the conjunction of `c` and `t` (verdict of `t`, evaluated sets united) -/
+theorem if_true_then (c t : NodeId) (e : Option NodeId) (evc : Spec.Ev) (hn : env.st.get? s = some n)
+    (hk : Laws.keywords n = { if_ := some c, then_ := some t, else_ := e })
+    (hc : Spec.evalFuel env fuel (scope ++ [s]) c j = some (some evc)) :
+    Spec.evalFuel env (fuel + 1) scope s j
+      = (Spec.evalFuel env fuel (scope ++ [s]) t j).map fun rt => rt.map fun evt => evc.union evt := by
+  rw [Laws.evalFuel_succ_of env fuel scope s j n _ hn hk, Laws.specBody_if, Laws.kwIf_true _ _ _ c t evc rfl rfl hc]
+
+/-- `if c then t else e` where `c` fails: `e` -/
+theorem if_false_else (c e : NodeId) (t : Option NodeId) (hn : env.st.get? s = some n)
+    (hk : Laws.keywords n = { if_ := some c, then_ := t, else_ := some e })
+    (hc : Spec.evalFuel env fuel (scope ++ [s]) c j = some none) :
+    Spec.evalFuel env (fuel + 1) scope s j = Spec.evalFuel env fuel (scope ++ [s]) e j := by
+  rw [Laws.evalFuel_succ_of env fuel scope s j n _ hn hk, Laws.specBody_if, Laws.kwIf_false _ _ _ c e rfl rfl hc]
+
+/-- the verdict of `if c then t else e` is that of `(c ∧ t) ∨ (¬c ∧ e)` -/
+theorem if_then_else_verdict (c t e : NodeId) (rc rt re : Spec.R) (hn : env.st.get? s = some n)
+    (hk : Laws.keywords n = { if_ := some c, then_ := some t, else_ := some e })
+    (hc : Spec.evalFuel env fuel (scope ++ [s]) c j = some rc) (ht : Spec.evalFuel env fuel (scope ++ [s]) t j = some rt)
+    (he : Spec.evalFuel env fuel (scope ++ [s]) e j = some re) :
+    (Spec.evalFuel env (fuel + 1) scope s j).map (·.isSome)
+      = some ((rc.isSome && rt.isSome) || (!rc.isSome && re.isSome)) := by
+  rw [Laws.evalFuel_succ_of env fuel scope s j n _ hn hk, Laws.specBody_if,
+    Laws.kwIf_verdict _ _ _ c t e rc rt re rfl rfl rfl hc ht he]
+
+/-- `if` without `then` and `else` never rejects; when the condition holds, what it evaluated counts
+    (`C07.if_alone_annotations`) -/
+theorem if_alone (c : NodeId) (hn : env.st.get? s = some n) (hk : Laws.keywords n = { if_ := some c }) :
+    Spec.evalFuel env (fuel + 1) scope s j
+      = (Spec.evalFuel env fuel (scope ++ [s]) c j).map fun rc => some (rc.getD {}) := by
+  rw [Laws.evalFuel_succ_of env fuel scope s j n _ hn hk, Laws.specBody_if, Laws.kwIf_alone _ _ _ c rfl rfl rfl]
+
+/-- … in particular its verdict, whenever defined, is "valid" -/
+theorem if_alone_never_rejects (c : NodeId) (hn : env.st.get? s = some n) (hk : Laws.keywords n = { if_ := some c }) :
+    Spec.evalFuel env (fuel + 1) scope s j ≠ some none := by
+  rw [if_alone env fuel scope s n j c hn hk]
+  cases Spec.evalFuel env fuel (scope ++ [s]) c j <;> simp
+
+/-! ### 6. `const`, `enum`, `type` -/
+
+/-- `const v` ≡ `enum [v]`, as the only keyword of two schema objects: the same outcome (no fuel beyond one unit, any scopes) -/
+theorem const_enum_singleton (v : Json) (s' : NodeId) (n' : Node) (scope' : List NodeId) (hn : env.st.get? s = some n)
+    (hk : Laws.keywords n = { const := some v }) (hn' : env.st.get? s' = some n')
+    (hk' : Laws.keywords n' = { enum := some [v] }) :
+    Spec.evalFuel env (fuel + 1) scope s j = Spec.evalFuel env (fuel + 1) scope' s' j := by
+  rw [Laws.evalFuel_succ_of env fuel scope s j n _ hn hk, Laws.evalFuel_succ_of env fuel scope' s' j n' _ hn' hk',
+    Laws.specBody_assertion_node _ _ _ _ _ _ (by constructor <;> rfl) (by constructor <;> rfl),
+    Laws.specBody_assertion_node _ _ _ _ _ _ (by constructor <;> rfl) (by constructor <;> rfl),
+    Laws.asserts_const_enum env _ j v rfl rfl]
+
+/-- `const v` ≡ `enum [v]` next to ANY other keywords, anywhere in a schema: rewriting the object changes no outcome of
+    the Spec (evaluated sets included), for any schema of the store -/
+theorem const_enum_singleton_in_context (v : Json) (hn : env.st.get? s = some n) (hc : n.const = some v)
+    (he : n.enum = none) (root : NodeId) :
+    Spec.evalFuel { env with st := env.st.setIfInBounds s { n with const := none, enum := some [v] } } fuel scope root j
+      = Spec.evalFuel env fuel scope root j := by
+  rw [Laws.evalFuel_set_eq env s n _ hn (fun rec sc j' => Laws.specBody_const_enum env rec sc s j' n v hc he)]
+
+/-- `enum` reads its list as a set: reordering / repeating / deduplicating the values changes no outcome -/
+theorem enum_set_invariant (es es' : List Json) (hn : env.st.get? s = some n) (he : n.enum = some es)
+    (hset : ∀ v, v ∈ es ↔ v ∈ es') (root : NodeId) :
+    Spec.evalFuel { env with st := env.st.setIfInBounds s { n with enum := some es' } } fuel scope root j
+      = Spec.evalFuel env fuel scope root j := by
+  rw [Laws.evalFuel_set_eq env s n _ hn (fun rec sc j' => Laws.specBody_enum_set env rec sc s j' n es es' he hset)]
+
+/-- `type: [t]` ≡ `type: t` (the two Go fields `Types` / `Type`; `t ≠ ""` because the empty `Type` means "absent") -/
+theorem type_singleton (t : String) (ht : t ≠ "") (hn : env.st.get? s = some n) (h1 : n.type = "")
+    (h2 : n.types = some [t]) (root : NodeId) :
+    Spec.evalFuel { env with st := env.st.setIfInBounds s { n with type := t, types := none } } fuel scope root j
+      = Spec.evalFuel env fuel scope root j := by
+  rw [Laws.evalFuel_set_eq env s n _ hn (fun rec sc j' => Laws.specBody_type_singleton env rec sc s j' n t ht h1 h2)]
+
+/-- `type: "number"` accepts whatever `type: "integer"` accepts -/
+theorem type_integer_number (s' : NodeId) (n' : Node) (scope' : List NodeId) (hn : env.st.get? s = some n)
+    (hk : Laws.keywords n = { type := "integer" }) (hn' : env.st.get? s' = some n')
+    (hk' : Laws.keywords n' = { type := "number" })
+    (h : Spec.evalFuel env (fuel + 1) scope s j = some (some {})) :
+    Spec.evalFuel env (fuel + 1) scope' s' j = some (some {}) := by
+  rw [Laws.evalFuel_succ_of env fuel scope s j n _ hn hk,
+    Laws.specBody_assertion_node _ _ _ _ _ _ (by constructor <;> rfl) (by constructor <;> rfl)] at h
+  rw [Laws.evalFuel_succ_of env fuel scope' s' j n' _ hn' hk',
+    Laws.specBody_assertion_node _ _ _ _ _ _ (by constructor <;> rfl) (by constructor <;> rfl)]
+  rw [Laws.assertsOf_type_only env j "integer" (by decide)] at h
+  rw [Laws.assertsOf_type_only env j "number" (by decide)]
+  have hi : Spec.typeMatches "integer" j = true := by
+    cases hm : Spec.typeMatches "integer" j with
+    | true => rfl
+    | false => rw [hm] at h; simp at h
+  rw [Laws.typeMatches_integer_number j hi]; rfl
+
+/-! ### the dynamic scope in these laws
+
+`allOf [t]` applies `t` with the wrapper on the dynamic scope.  That is immaterial when no `$dynamicAnchor` is declared, and
+when the wrapper belongs to the schema resource of `t`: then "`allOf [t]` is `t`" holds with the same scope. -/
+
+/-- without `$dynamicAnchor` anywhere, the dynamic scope is immaterial -/
+theorem scope_irrelevant (h : ∀ r name, env.dynDecl r name = none) (scope' : List NodeId) :
+    Spec.evalFuel env fuel scope s j = Spec.evalFuel env fuel scope' s j :=
+  Laws.evalFuel_scope_eqv env fuel scope scope' s j (Laws.ScopeEqv_of_no_dynamic env h scope scope')
+
+/-- entering a wrapper of the same schema resource first changes nothing -/
+theorem scope_wrapper (a : NodeId) (h : env.resource a = env.resource s) :
+    Spec.evalFuel env fuel (scope ++ [a]) s j = Spec.evalFuel env fuel scope s j :=
+  Laws.evalFuel_wrapper env fuel scope a s j h
+
+/-- `allOf [t]`, wrapper and `t` in one schema resource: exactly the outcome of `t` under the same scope -/
+theorem allOf_singleton_same_resource (t : NodeId) (hn : env.st.get? s = some n)
+    (hk : Laws.keywords n = { allOf := some [t] }) (hres : env.resource s = env.resource t) :
+    Spec.evalFuel env (fuel + 1) scope s j = Spec.evalFuel env fuel scope t j := by
+  rw [allOf_singleton env fuel scope s n j t hn hk, Laws.evalFuel_wrapper env fuel scope s t j hres]
+
+/-- `not (not t)` in one schema resource: the verdict of `t` under the same scope, nothing evaluated -/
+theorem not_not_same_resource (m : NodeId) (nm : Node) (t : NodeId) (hn : env.st.get? s = some n)
+    (hk : Laws.keywords n = { not := some m }) (hm : env.st.get? m = some nm) (hkm : Laws.keywords nm = { not := some t })
+    (hs : env.resource s = env.resource t) (hmr : env.resource m = env.resource t) :
+    Spec.evalFuel env (fuel + 2) scope s j = (Spec.evalFuel env fuel scope t j).map fun r => r.map fun _ => {} := by
+  rw [not_not env fuel scope s n j m nm t hn hk hm hkm, Laws.evalFuel_wrapper2 env fuel scope s m t j hs hmr]
+
+/-! ### 7. adjacent keywords are a conjunction
+
+`Laws.Group` lists the groups of keywords that the Spec evaluates independently (`properties` + `patternProperties` +
+`additionalProperties` is ONE group, so are `prefixItems` + `items`, `contains` + `minContains` + `maxContains`,
+`if` + `then` + `else`); `Laws.pick sel n` is the schema object with the selected groups of `n` only.  The side condition is
+`unevaluatedItems` / `unevaluatedProperties` (they read what ALL the other keywords evaluated) and, under draft-07, `$ref`
+(which silences its siblings). -/
+
+/-- `allOf [t1, t2]` is the conjunction of `t1` and `t2`: defined iff both are, valid iff both are, evaluated sets united -/
+theorem allOf_pair (t1 t2 : NodeId) (hn : env.st.get? s = some n) (hk : Laws.keywords n = { allOf := some [t1, t2] }) :
+    Spec.evalFuel env (fuel + 1) scope s j
+      = Laws.oconj2 (Spec.evalFuel env fuel (scope ++ [s]) t1 j) (Spec.evalFuel env fuel (scope ++ [s]) t2 j) := by
+  rw [Laws.evalFuel_succ_of env fuel scope s j n _ hn hk, Laws.specBody_allOf, Laws.kwAllOf_pair _ _ _ t1 t2 rfl]
+
+/-- one step of the Spec at a schema object without `unevaluated*`: the conjunction of the steps at its two parts,
+    whatever the selection of keyword groups and whatever the subschema applications return (the three stores differ at
+    `s` only: the object, its selected groups, the others) -/
+theorem adjacent_keywords_step (rec : Spec.Rec) (sel : Laws.Group → Bool) (hn : env.st.get? s = some n)
+    (hu : Laws.NoUneval n) (h7 : env.draft = .d2020 ∨ n.ref = "") :
+    Inv.OutSim (Spec.evalStep env rec scope s j)
+      (Laws.oconj2 (Spec.evalStep { env with st := env.st.setIfInBounds s (Laws.pick sel n) } rec scope s j)
+        (Spec.evalStep { env with st := env.st.setIfInBounds s (Laws.pick (fun g => !sel g) n) } rec scope s j)) := by
+  have hlt : s < env.st.size := (Array.getElem?_eq_some_iff.1 hn).1
+  have hget : ∀ m : Node, Store.get? (env.st.setIfInBounds s m) s = some m := by
+    intro m
+    show (env.st.setIfInBounds s m)[s]? = some m
+    rw [Array.getElem?_setIfInBounds_self, if_pos hlt]
+  rw [Inv.evalStep_unfold, Inv.evalStep_unfold, Inv.evalStep_unfold, hn]
+  show Inv.OutSim _ (Laws.oconj2
+    (match Store.get? (env.st.setIfInBounds s (Laws.pick sel n)) s with
+      | none => none
+      | some m => Inv.specBody { env with st := _ } rec scope s j m)
+    (match Store.get? (env.st.setIfInBounds s (Laws.pick (fun g => !sel g) n)) s with
+      | none => none
+      | some m => Inv.specBody { env with st := _ } rec scope s j m))
+  rw [hget, hget]
+  show Inv.OutSim _ (Laws.oconj2 (Inv.specBody { env with st := _ } rec scope s j _)
+    (Inv.specBody { env with st := _ } rec scope s j _))
+  rw [Inv.specBody_store, Inv.specBody_store]
+  apply Laws.specBody_split env rec scope s j n sel hu
+  rcases h7 with h | h
+  · simp [h]
+  · simp [h]
+
+/-- in one store: `s` (no `unevaluated*`, `$ref`, `$dynamicRef`) against `s1` with the selected keyword groups of `s` and
+    `s2` with the others, under scopes that designate alike (`Laws.ScopeEqv_same_resource`, `Laws.ScopeEqv_of_no_dynamic`):
+    `s` is defined iff `s1` and `s2` are, and valid iff both are (`Laws.verdict2 (some r1) (some r2) = some (r1.isSome &&
+    r2.isSome)`, undefined otherwise) -/
+theorem adjacent_keywords_verdict (s1 s2 : NodeId) (n1 n2 : Node) (sel : Laws.Group → Bool)
+    (hn : env.st.get? s = some n) (hn1 : env.st.get? s1 = some n1) (hn2 : env.st.get? s2 = some n2)
+    (hk1 : Laws.keywords n1 = Laws.pick sel n) (hk2 : Laws.keywords n2 = Laws.pick (fun g => !sel g) n)
+    (hu : Laws.NoUneval n) (hr : n.ref = "") (hd : n.dynamicRef = "")
+    (hs1 : Laws.ScopeEqv env (scope ++ [s1]) (scope ++ [s])) (hs2 : Laws.ScopeEqv env (scope ++ [s2]) (scope ++ [s])) :
+    (Spec.evalFuel env (fuel + 1) scope s j).map (·.isSome)
+      = Laws.verdict2 (Spec.evalFuel env (fuel + 1) scope s1 j) (Spec.evalFuel env (fuel + 1) scope s2 j) := by
+  rw [← Laws.oconj2_verdict]
+  exact Laws.OutSim.verdict_eq
+    (Laws.evalFuel_split env fuel scope s s1 s2 n n1 n2 j sel hn hn1 hn2 hk1 hk2 hu hr hd hs1 hs2)
+
+/-- … and then the evaluated sets of `s` are the unions of those of `s1` and `s2` -/
+theorem adjacent_keywords_evaluated (s1 s2 : NodeId) (n1 n2 : Node) (sel : Laws.Group → Bool)
+    (hn : env.st.get? s = some n) (hn1 : env.st.get? s1 = some n1) (hn2 : env.st.get? s2 = some n2)
+    (hk1 : Laws.keywords n1 = Laws.pick sel n) (hk2 : Laws.keywords n2 = Laws.pick (fun g => !sel g) n)
+    (hu : Laws.NoUneval n) (hr : n.ref = "") (hd : n.dynamicRef = "")
+    (hs1 : Laws.ScopeEqv env (scope ++ [s1]) (scope ++ [s])) (hs2 : Laws.ScopeEqv env (scope ++ [s2]) (scope ++ [s]))
+    (e e1 e2 : Spec.Ev) (h : Spec.evalFuel env (fuel + 1) scope s j = some (some e))
+    (h1 : Spec.evalFuel env (fuel + 1) scope s1 j = some (some e1))
+    (h2 : Spec.evalFuel env (fuel + 1) scope s2 j = some (some e2)) :
+    (∀ k, k ∈ e.props ↔ k ∈ e1.props ∨ k ∈ e2.props) ∧ (∀ i, i ∈ e.items ↔ i ∈ e1.items ∨ i ∈ e2.items) := by
+  have := Laws.evalFuel_split env fuel scope s s1 s2 n n1 n2 j sel hn hn1 hn2 hk1 hk2 hu hr hd hs1 hs2
+  rw [h, h1, h2] at this
+  have h' : Inv.EvEqv e (e1.union e2) := this
+  exact ⟨fun k => by rw [h'.1 k]; simp [Spec.Ev.union], fun i => by rw [h'.2 i]; simp [Spec.Ev.union]⟩
+
+/-! ### 9. `$ref` -/
+
+/-- draft 2020-12: a schema object whose only keyword is `$ref` has the outcome of the schema the reference designates —
+    the same verdict, the same evaluated sets (draft-07: `C02.ref_is_target7`, where nothing evaluated comes back and the
+    other keywords of the object are ignored) -/
+theorem ref_is_target (r : String) (t : NodeId) (hd : env.draft = .d2020) (hn : env.st.get? s = some n)
+    (hk : Laws.keywords n = { ref := r }) (hr : r ≠ "") (ht : env.refTarget s = some t) :
+    Spec.evalFuel env (fuel + 1) scope s j = Spec.evalFuel env fuel (scope ++ [s]) t j := by
+  have hb : (r != "") = true := by simpa using hr
+  rw [Laws.evalFuel_succ_of env fuel scope s j n _ hn hk, Laws.specBody_ref env _ scope s j r hd]
+  simp only [Spec.kwRef, Spec.inPlace, hb, if_true, ht]
+
+/-- … under the same scope when the reference stays within one schema resource -/
+theorem ref_is_target_same_resource (r : String) (t : NodeId) (hd : env.draft = .d2020) (hn : env.st.get? s = some n)
+    (hk : Laws.keywords n = { ref := r }) (hr : r ≠ "") (ht : env.refTarget s = some t)
+    (hres : env.resource s = env.resource t) :
+    Spec.evalFuel env (fuel + 1) scope s j = Spec.evalFuel env fuel scope t j := by
+  rw [ref_is_target env fuel scope s n j r t hd hn hk hr ht, Laws.evalFuel_wrapper env fuel scope s t j hres]
+
+/-- draft 2020-12: `$ref` next to other keywords is one more conjunct (`adjacent_keywords_step` with the group `ref`
+    selected); stated for the `$ref` half: it is the target -/
+theorem ref_half_is_target (rec : Spec.Rec) (t : NodeId) (hd : env.draft = .d2020) (hr : n.ref ≠ "")
+    (ht : env.refTarget s = some t) :
+    Inv.specBody env rec scope s j (Laws.pick (fun g => g == .ref) n) = rec (scope ++ [s]) t j := by
+  have hb : (n.ref != "") = true := by simpa using hr
+  have e : Laws.pick (fun g => g == .ref) n = { ref := n.ref } := rfl
+  rw [e, Laws.specBody_ref env rec scope s j n.ref hd]
+  simp only [Spec.kwRef, Spec.inPlace, hb, if_true, ht]
+
+end laws
+
+/-! ### the same laws for the evaluator -/
+
+section laws_go
+variable (env : VEnv) (hwf : EnvWF env) (hst : StoreWF env.st) (fuel : Nat) (stack : List NodeId)
+  (hstack : ∀ x, x ∈ stack → (env.info? x).isSome = true) (s : NodeId) (n : Node) (j : Json) (hj : Json.WF j = true)
+include hwf hst hstack hj
+
+/-- evaluator: `{}` returns nil on every instance, with annotations that mark nothing as evaluated -/
+theorem true_accepts_go (hn : env.st.get? s = some n) (hk : Laws.keywords n = {}) :
+    ∃ a, Go.validateFuel env (fuel + 1) stack (GoVal.ofJson j) s = .ok a ∧
+      (∀ k, k ∈ keysOf j → γprop a k = false) ∧ (∀ i, i < lenOf j → γitem a i = false) := by
+  obtain ⟨a, ha, hm⟩ := Laws.go_anns env hwf hst (fuel + 1) stack hstack s j hj {}
+    (true_accepts (specEnvOf env) fuel stack s n j hn hk)
+  exact ⟨a, ha, (Laws.AnnsMatch_empty_iff j a).1 hm⟩
+
+/-- evaluator: `{"not": {}}` returns an error on every instance -/
+theorem false_rejects_go (t : NodeId) (m : Node) (hn : env.st.get? s = some n) (hk : Laws.keywords n = { not := some t })
+    (hm : env.st.get? t = some m) (hkm : Laws.keywords m = {}) :
+    Go.validateFuel env (fuel + 2) stack (GoVal.ofJson j) s = .err := by
+  have hrel := validate_refines_spec env hwf hst (fuel + 2) stack hstack s j hj
+  rw [false_rejects (specEnvOf env) fuel stack s n j t m hn hk hm hkm] at hrel
+  exact hrel
+
+/-- evaluator: `allOf [t]` returns what `t` returns — the same verdict, annotations for the same sets -/
+theorem allOf_singleton_go (t : NodeId) (hn : env.st.get? s = some n) (hk : Laws.keywords n = { allOf := some [t] })
+    (hdef : (Spec.evalFuel (specEnvOf env) fuel (stack ++ [s]) t j).isSome = true) :
+    (Go.validateFuel env (fuel + 1) stack (GoVal.ofJson j) s).verdict
+      = (Go.validateFuel env fuel (stack ++ [s]) (GoVal.ofJson j) t).verdict ∧
+    ∀ a1 a2, Go.validateFuel env (fuel + 1) stack (GoVal.ofJson j) s = .ok a1 →
+      Go.validateFuel env fuel (stack ++ [s]) (GoVal.ofJson j) t = .ok a2 →
+      (∀ k, k ∈ keysOf j → γprop a1 k = γprop a2 k) ∧ (∀ i, i < lenOf j → γitem a1 i = γitem a2 i) :=
+  Laws.go_same env hwf hst _ _ _ _ hstack (Laws.stack_snoc env hwf stack hstack s n hn) s t j hj
+    (allOf_singleton (specEnvOf env) fuel stack s n j t hn hk) hdef
+
+/-- evaluator: `anyOf [t]` returns what `t` returns -/
+theorem anyOf_singleton_go (t : NodeId) (hn : env.st.get? s = some n) (hk : Laws.keywords n = { anyOf := some [t] })
+    (hdef : (Spec.evalFuel (specEnvOf env) fuel (stack ++ [s]) t j).isSome = true) :
+    (Go.validateFuel env (fuel + 1) stack (GoVal.ofJson j) s).verdict
+      = (Go.validateFuel env fuel (stack ++ [s]) (GoVal.ofJson j) t).verdict ∧
+    ∀ a1 a2, Go.validateFuel env (fuel + 1) stack (GoVal.ofJson j) s = .ok a1 →
+      Go.validateFuel env fuel (stack ++ [s]) (GoVal.ofJson j) t = .ok a2 →
+      (∀ k, k ∈ keysOf j → γprop a1 k = γprop a2 k) ∧ (∀ i, i < lenOf j → γitem a1 i = γitem a2 i) :=
+  Laws.go_same env hwf hst _ _ _ _ hstack (Laws.stack_snoc env hwf stack hstack s n hn) s t j hj
+    (anyOf_singleton (specEnvOf env) fuel stack s n j t hn hk) hdef
+
+/-- evaluator: `oneOf [t]` returns what `t` returns -/
+theorem oneOf_singleton_go (t : NodeId) (hn : env.st.get? s = some n) (hk : Laws.keywords n = { oneOf := some [t] })
+    (hdef : (Spec.evalFuel (specEnvOf env) fuel (stack ++ [s]) t j).isSome = true) :
+    (Go.validateFuel env (fuel + 1) stack (GoVal.ofJson j) s).verdict
+      = (Go.validateFuel env fuel (stack ++ [s]) (GoVal.ofJson j) t).verdict ∧
+    ∀ a1 a2, Go.validateFuel env (fuel + 1) stack (GoVal.ofJson j) s = .ok a1 →
+      Go.validateFuel env fuel (stack ++ [s]) (GoVal.ofJson j) t = .ok a2 →
+      (∀ k, k ∈ keysOf j → γprop a1 k = γprop a2 k) ∧ (∀ i, i < lenOf j → γitem a1 i = γitem a2 i) :=
+  Laws.go_same env hwf hst _ _ _ _ hstack (Laws.stack_snoc env hwf stack hstack s n hn) s t j hj
+    (oneOf_singleton (specEnvOf env) fuel stack s n j t hn hk) hdef
+
+/-- evaluator: `allOf []` returns nil on every instance -/
+theorem allOf_empty_go (hn : env.st.get? s = some n) (hk : Laws.keywords n = { allOf := some [] }) :
+    (Go.validateFuel env (fuel + 1) stack (GoVal.ofJson j) s).verdict = some true :=
+  Laws.go_verdict env hwf hst _ stack hstack s j hj _ (allOf_empty (specEnvOf env) fuel stack s n j hn hk)
+
+/-- evaluator: `anyOf []` returns an error on every instance -/
+theorem anyOf_empty_go (hn : env.st.get? s = some n) (hk : Laws.keywords n = { anyOf := some [] }) :
+    (Go.validateFuel env (fuel + 1) stack (GoVal.ofJson j) s).verdict = some false :=
+  Laws.go_verdict env hwf hst _ stack hstack s j hj _ (anyOf_empty (specEnvOf env) fuel stack s n j hn hk)
+
+/-- evaluator: `oneOf []` returns an error on every instance -/
+theorem oneOf_empty_go (hn : env.st.get? s = some n) (hk : Laws.keywords n = { oneOf := some [] }) :
+    (Go.validateFuel env (fuel + 1) stack (GoVal.ofJson j) s).verdict = some false :=
+  Laws.go_verdict env hwf hst _ stack hstack s j hj _ (oneOf_empty (specEnvOf env) fuel stack s n j hn hk)
+
+/-- evaluator: `not (not t)` returns nil exactly when `t` does -/
+theorem not_not_go (m : NodeId) (nm : Node) (t : NodeId) (hn : env.st.get? s = some n)
+    (hk : Laws.keywords n = { not := some m }) (hm : env.st.get? m = some nm) (hkm : Laws.keywords nm = { not := some t })
+    (hdef : (Spec.evalFuel (specEnvOf env) fuel (stack ++ [s] ++ [m]) t j).isSome = true) :
+    (Go.validateFuel env (fuel + 2) stack (GoVal.ofJson j) s).verdict
+      = (Go.validateFuel env fuel (stack ++ [s] ++ [m]) (GoVal.ofJson j) t).verdict := by
+  have hs2 := Laws.stack_snoc env hwf _ (Laws.stack_snoc env hwf stack hstack s n hn) m nm hm
+  have hl := not_not (specEnvOf env) fuel stack s n j m nm t hn hk hm hkm
+  cases hr : Spec.evalFuel (specEnvOf env) fuel (stack ++ [s] ++ [m]) t j with
+  | none => rw [hr] at hdef; cases hdef
+  | some r =>
+    rw [hr] at hl
+    rw [Laws.go_verdict env hwf hst _ _ hs2 t j hj r hr, Laws.go_verdict env hwf hst _ _ hstack s j hj _ hl]
+    cases r <;> rfl
+
+/-- evaluator: reordering / repeating / deduplicating the branches of an `anyOf` anywhere in a schema does not change
+    what `Validate` returns for any schema of the store -/
+theorem anyOf_set_invariant_go (ss ss' : List NodeId) (hn : env.st.get? s = some n) (h : n.anyOf = some ss)
+    (hset : ∀ t, t ∈ ss ↔ t ∈ ss') (root : NodeId)
+    (hdef : (Spec.evalFuel (specEnvOf env) fuel stack root j).isSome = true) :
+    (Go.validateFuel { env with st := env.st.setIfInBounds s { n with anyOf := some ss' } } fuel stack (GoVal.ofJson j)
+      root).verdict = (Go.validateFuel env fuel stack (GoVal.ofJson j) root).verdict :=
+  Laws.go_set_verdict env hwf hst s n _ hn (Laws.NodeEqv_anyOf _ s n ss ss' h hset) rfl fuel stack hstack root j hj hdef
+
+/-- evaluator: the same for `allOf` -/
+theorem allOf_set_invariant_go (ss ss' : List NodeId) (hn : env.st.get? s = some n) (h : n.allOf = some ss)
+    (hset : ∀ t, t ∈ ss ↔ t ∈ ss') (root : NodeId)
+    (hdef : (Spec.evalFuel (specEnvOf env) fuel stack root j).isSome = true) :
+    (Go.validateFuel { env with st := env.st.setIfInBounds s { n with allOf := some ss' } } fuel stack (GoVal.ofJson j)
+      root).verdict = (Go.validateFuel env fuel stack (GoVal.ofJson j) root).verdict :=
+  Laws.go_set_verdict env hwf hst s n _ hn (Laws.NodeEqv_allOf _ s n ss ss' h hset) rfl fuel stack hstack root j hj hdef
+
+/-- evaluator: reordering the branches of a `oneOf` -/
+theorem oneOf_perm_invariant_go (ss ss' : List NodeId) (hn : env.st.get? s = some n) (h : n.oneOf = some ss)
+    (hp : ss.Perm ss') (root : NodeId) (hdef : (Spec.evalFuel (specEnvOf env) fuel stack root j).isSome = true) :
+    (Go.validateFuel { env with st := env.st.setIfInBounds s { n with oneOf := some ss' } } fuel stack (GoVal.ofJson j)
+      root).verdict = (Go.validateFuel env fuel stack (GoVal.ofJson j) root).verdict :=
+  Laws.go_set_verdict env hwf hst s n _ hn (Laws.NodeEqv_oneOf _ s n ss ss' h hp) rfl fuel stack hstack root j hj hdef
+
+/-- evaluator: `oneOf [t, t]` returns an error whenever `t` is decided -/
+theorem oneOf_double_rejects_go (t : NodeId) (hn : env.st.get? s = some n)
+    (hk : Laws.keywords n = { oneOf := some [t, t] })
+    (hdef : (Spec.evalFuel (specEnvOf env) fuel (stack ++ [s]) t j).isSome = true) :
+    Go.validateFuel env (fuel + 1) stack (GoVal.ofJson j) s = .err := by
+  have hrel := validate_refines_spec env hwf hst (fuel + 1) stack hstack s j hj
+  rw [oneOf_double_rejects (specEnvOf env) fuel stack s n j t hn hk] at hrel
+  cases hr : Spec.evalFuel (specEnvOf env) fuel (stack ++ [s]) t j with
+  | none => rw [hr] at hdef; cases hdef
+  | some r => rw [hr] at hrel; exact hrel
+
+/-- evaluator: `if c then t else e` returns nil exactly when `(c ∧ t) ∨ (¬c ∧ e)` -/
+theorem if_then_else_verdict_go (c t e : NodeId) (hn : env.st.get? s = some n)
+    (hk : Laws.keywords n = { if_ := some c, then_ := some t, else_ := some e })
+    (hc : (Spec.evalFuel (specEnvOf env) fuel (stack ++ [s]) c j).isSome = true)
+    (ht : (Spec.evalFuel (specEnvOf env) fuel (stack ++ [s]) t j).isSome = true)
+    (he : (Spec.evalFuel (specEnvOf env) fuel (stack ++ [s]) e j).isSome = true) :
+    ∃ vc vt ve, (Go.validateFuel env fuel (stack ++ [s]) (GoVal.ofJson j) c).verdict = some vc ∧
+      (Go.validateFuel env fuel (stack ++ [s]) (GoVal.ofJson j) t).verdict = some vt ∧
+      (Go.validateFuel env fuel (stack ++ [s]) (GoVal.ofJson j) e).verdict = some ve ∧
+      (Go.validateFuel env (fuel + 1) stack (GoVal.ofJson j) s).verdict = some ((vc && vt) || (!vc && ve)) := by
+  have hs' := Laws.stack_snoc env hwf stack hstack s n hn
+  obtain ⟨rc, hrc⟩ := Option.isSome_iff_exists.1 hc
+  obtain ⟨rt, hrt⟩ := Option.isSome_iff_exists.1 ht
+  obtain ⟨re, hre⟩ := Option.isSome_iff_exists.1 he
+  refine ⟨rc.isSome, rt.isSome, re.isSome, Laws.go_verdict env hwf hst _ _ hs' c j hj rc hrc,
+    Laws.go_verdict env hwf hst _ _ hs' t j hj rt hrt, Laws.go_verdict env hwf hst _ _ hs' e j hj re hre, ?_⟩
+  have hv := if_then_else_verdict (specEnvOf env) fuel stack s n j c t e rc rt re hn hk hrc hrt hre
+  cases hr : Spec.evalFuel (specEnvOf env) (fuel + 1) stack s j with
+  | none => rw [hr] at hv; cases hv
+  | some r =>
+    rw [hr] at hv
+    simp only [Option.map_some, Option.some.injEq] at hv
+    rw [Laws.go_verdict env hwf hst _ _ hstack s j hj r hr, hv]
+
+/-- evaluator: `if` alone never returns an error -/
+theorem if_alone_go (c : NodeId) (hn : env.st.get? s = some n) (hk : Laws.keywords n = { if_ := some c })
+    (hdef : (Spec.evalFuel (specEnvOf env) fuel (stack ++ [s]) c j).isSome = true) :
+    (Go.validateFuel env (fuel + 1) stack (GoVal.ofJson j) s).verdict = some true := by
+  obtain ⟨rc, hrc⟩ := Option.isSome_iff_exists.1 hdef
+  have hl := if_alone (specEnvOf env) fuel stack s n j c hn hk
+  rw [hrc] at hl
+  exact Laws.go_verdict env hwf hst _ _ hstack s j hj _ hl
+
+/-- evaluator: `{"const": v}` and `{"enum": [v]}` return the same verdict on every instance (no hypothesis on the Spec:
+    a schema object with assertion keywords only is decided with one unit of fuel) -/
+theorem const_enum_singleton_go (v : Json) (s' : NodeId) (n' : Node) (stack' : List NodeId)
+    (hstack' : ∀ x, x ∈ stack' → (env.info? x).isSome = true) (hn : env.st.get? s = some n)
+    (hk : Laws.keywords n = { const := some v }) (hn' : env.st.get? s' = some n')
+    (hk' : Laws.keywords n' = { enum := some [v] }) :
+    (Go.validateFuel env (fuel + 1) stack (GoVal.ofJson j) s).verdict
+      = (Go.validateFuel env (fuel + 1) stack' (GoVal.ofJson j) s').verdict := by
+  refine (Laws.go_same env hwf hst _ _ _ _ hstack hstack' s s' j hj
+    (const_enum_singleton (specEnvOf env) fuel stack s n j v s' n' stack' hn hk hn' hk') ?_).1
+  rw [Laws.evalFuel_succ_of (specEnvOf env) fuel stack' s' j n' _ hn' hk',
+    Laws.specBody_assertion_node _ _ _ _ _ _ (by constructor <;> rfl) (by constructor <;> rfl)]
+  rfl
+
+/-- evaluator: rewriting `const v` into `enum [v]` next to any other keywords, anywhere in a schema -/
+theorem const_enum_singleton_in_context_go (v : Json) (hn : env.st.get? s = some n) (hc : n.const = some v)
+    (he : n.enum = none) (root : NodeId) (hdef : (Spec.evalFuel (specEnvOf env) fuel stack root j).isSome = true) :
+    (Go.validateFuel { env with st := env.st.setIfInBounds s { n with const := none, enum := some [v] } } fuel stack
+      (GoVal.ofJson j) root).verdict = (Go.validateFuel env fuel stack (GoVal.ofJson j) root).verdict :=
+  Laws.go_set_verdict env hwf hst s n _ hn (Laws.NodeEqv_const_enum _ s n v hc he) rfl fuel stack hstack root j hj hdef
+
+/-- evaluator: reordering / repeating / deduplicating the values of an `enum` -/
+theorem enum_set_invariant_go (es es' : List Json) (hn : env.st.get? s = some n) (he : n.enum = some es)
+    (hset : ∀ v, v ∈ es ↔ v ∈ es') (root : NodeId)
+    (hdef : (Spec.evalFuel (specEnvOf env) fuel stack root j).isSome = true) :
+    (Go.validateFuel { env with st := env.st.setIfInBounds s { n with enum := some es' } } fuel stack
+      (GoVal.ofJson j) root).verdict = (Go.validateFuel env fuel stack (GoVal.ofJson j) root).verdict :=
+  Laws.go_set_verdict env hwf hst s n _ hn (Laws.NodeEqv_enum_set _ s n es es' he hset) rfl fuel stack hstack root j hj hdef
+
+/-- evaluator: `Types: [t]` against `Type: t` -/
+theorem type_singleton_go (t : String) (ht : t ≠ "") (hn : env.st.get? s = some n) (h1 : n.type = "")
+    (h2 : n.types = some [t]) (root : NodeId) (hdef : (Spec.evalFuel (specEnvOf env) fuel stack root j).isSome = true) :
+    (Go.validateFuel { env with st := env.st.setIfInBounds s { n with type := t, types := none } } fuel stack
+      (GoVal.ofJson j) root).verdict = (Go.validateFuel env fuel stack (GoVal.ofJson j) root).verdict :=
+  Laws.go_set_verdict env hwf hst s n _ hn (Laws.NodeEqv_type_singleton _ s n t ht h1 h2) rfl fuel stack hstack root j hj
+    hdef
+
+/-- evaluator: what `{"type": "integer"}` accepts, `{"type": "number"}` accepts -/
+theorem type_integer_number_go (s' : NodeId) (n' : Node) (stack' : List NodeId)
+    (hstack' : ∀ x, x ∈ stack' → (env.info? x).isSome = true) (hn : env.st.get? s = some n)
+    (hk : Laws.keywords n = { type := "integer" }) (hn' : env.st.get? s' = some n')
+    (hk' : Laws.keywords n' = { type := "number" })
+    (h : (Go.validateFuel env (fuel + 1) stack (GoVal.ofJson j) s).verdict = some true) :
+    (Go.validateFuel env (fuel + 1) stack' (GoVal.ofJson j) s').verdict = some true := by
+  have hs : Spec.evalFuel (specEnvOf env) (fuel + 1) stack s j = some (some {}) := by
+    have e := Laws.evalFuel_succ_of (specEnvOf env) fuel stack s j n _ hn hk
+    rw [Laws.specBody_assertion_node _ _ _ _ _ _ (by constructor <;> rfl) (by constructor <;> rfl)] at e
+    split at e
+    · exact e
+    · rw [Laws.go_verdict env hwf hst _ _ hstack s j hj none e] at h; cases h
+  exact Laws.go_verdict env hwf hst _ _ hstack' s' j hj _
+    (type_integer_number (specEnvOf env) fuel stack s n j s' n' stack' hn hk hn' hk' hs)
+
+/-- evaluator: `allOf [t1, t2]` returns nil exactly when `t1` and `t2` do -/
+theorem allOf_pair_go (t1 t2 : NodeId) (hn : env.st.get? s = some n) (hk : Laws.keywords n = { allOf := some [t1, t2] })
+    (h1 : (Spec.evalFuel (specEnvOf env) fuel (stack ++ [s]) t1 j).isSome = true)
+    (h2 : (Spec.evalFuel (specEnvOf env) fuel (stack ++ [s]) t2 j).isSome = true) :
+    ∃ b1 b2, (Go.validateFuel env fuel (stack ++ [s]) (GoVal.ofJson j) t1).verdict = some b1 ∧
+      (Go.validateFuel env fuel (stack ++ [s]) (GoVal.ofJson j) t2).verdict = some b2 ∧
+      (Go.validateFuel env (fuel + 1) stack (GoVal.ofJson j) s).verdict = some (b1 && b2) := by
+  have hs' := Laws.stack_snoc env hwf stack hstack s n hn
+  obtain ⟨r1, hr1⟩ := Option.isSome_iff_exists.1 h1
+  obtain ⟨r2, hr2⟩ := Option.isSome_iff_exists.1 h2
+  have hl := allOf_pair (specEnvOf env) fuel stack s n j t1 t2 hn hk
+  rw [hr1, hr2] at hl
+  refine ⟨r1.isSome, r2.isSome, Laws.go_verdict env hwf hst _ _ hs' t1 j hj r1 hr1,
+    Laws.go_verdict env hwf hst _ _ hs' t2 j hj r2 hr2, ?_⟩
+  rw [Laws.go_verdict env hwf hst _ _ hstack s j hj _ hl]
+  cases r1 <;> cases r2 <;> rfl
+
+/-- evaluator: a schema object (no `unevaluated*`, `$ref`, `$dynamicRef`) returns nil exactly when the object with a
+    selection of its keyword groups and the object with the remaining ones both do -/
+theorem adjacent_keywords_go (s1 s2 : NodeId) (n1 n2 : Node) (sel : Laws.Group → Bool)
+    (hn : env.st.get? s = some n) (hn1 : env.st.get? s1 = some n1) (hn2 : env.st.get? s2 = some n2)
+    (hk1 : Laws.keywords n1 = Laws.pick sel n) (hk2 : Laws.keywords n2 = Laws.pick (fun g => !sel g) n)
+    (hu : Laws.NoUneval n) (hr : n.ref = "") (hd : n.dynamicRef = "")
+    (hs1 : Laws.ScopeEqv (specEnvOf env) (stack ++ [s1]) (stack ++ [s]))
+    (hs2 : Laws.ScopeEqv (specEnvOf env) (stack ++ [s2]) (stack ++ [s]))
+    (h1 : (Spec.evalFuel (specEnvOf env) (fuel + 1) stack s1 j).isSome = true)
+    (h2 : (Spec.evalFuel (specEnvOf env) (fuel + 1) stack s2 j).isSome = true) :
+    ∃ b1 b2, (Go.validateFuel env (fuel + 1) stack (GoVal.ofJson j) s1).verdict = some b1 ∧
+      (Go.validateFuel env (fuel + 1) stack (GoVal.ofJson j) s2).verdict = some b2 ∧
+      (Go.validateFuel env (fuel + 1) stack (GoVal.ofJson j) s).verdict = some (b1 && b2) := by
+  obtain ⟨r1, hr1⟩ := Option.isSome_iff_exists.1 h1
+  obtain ⟨r2, hr2⟩ := Option.isSome_iff_exists.1 h2
+  have hv := adjacent_keywords_verdict (specEnvOf env) fuel stack s n j s1 s2 n1 n2 sel hn hn1 hn2 hk1 hk2 hu hr hd hs1 hs2
+  rw [hr1, hr2, Laws.verdict2_some] at hv
+  refine ⟨r1.isSome, r2.isSome, Laws.go_verdict env hwf hst _ _ hstack s1 j hj r1 hr1,
+    Laws.go_verdict env hwf hst _ _ hstack s2 j hj r2 hr2, ?_⟩
+  cases hr : Spec.evalFuel (specEnvOf env) (fuel + 1) stack s j with
+  | none => rw [hr] at hv; cases hv
+  | some r =>
+    rw [hr] at hv
+    simp only [Option.map_some, Option.some.injEq] at hv
+    rw [Laws.go_verdict env hwf hst _ _ hstack s j hj r hr, hv]
+
+/-- evaluator (draft 2020-12): `{"$ref": …}` returns what the designated schema returns — the same verdict, annotations for
+    the same sets -/
+theorem ref_is_target_go (r : String) (t : NodeId) (hd : env.draft = .d2020) (hn : env.st.get? s = some n)
+    (hk : Laws.keywords n = { ref := r }) (hr : r ≠ "") (i : Info) (hi : env.info? s = some i)
+    (ht : i.resolvedRef = some t)
+    (hdef : (Spec.evalFuel (specEnvOf env) fuel (stack ++ [s]) t j).isSome = true) :
+    (Go.validateFuel env (fuel + 1) stack (GoVal.ofJson j) s).verdict
+      = (Go.validateFuel env fuel (stack ++ [s]) (GoVal.ofJson j) t).verdict ∧
+    ∀ a1 a2, Go.validateFuel env (fuel + 1) stack (GoVal.ofJson j) s = .ok a1 →
+      Go.validateFuel env fuel (stack ++ [s]) (GoVal.ofJson j) t = .ok a2 →
+      (∀ k, k ∈ keysOf j → γprop a1 k = γprop a2 k) ∧ (∀ i, i < lenOf j → γitem a1 i = γitem a2 i) :=
+  Laws.go_same env hwf hst _ _ _ _ hstack (Laws.stack_snoc env hwf stack hstack s n hn) s t j hj
+    (ref_is_target (specEnvOf env) fuel stack s n j r t hd hn hk hr (by
+      show (env.info? s).bind (·.resolvedRef) = some t
+      rw [hi]; exact ht)) hdef
+
+/-- the definedness hypothesis of the evaluator corollaries discharged for guarded schemas (`spec_defined`): with fuel
+    `(depth j + 1) * (maxRank env + 1)` for the subschema, `allOf [t]` returns the verdict of `t` — no mention of the Spec -/
+theorem allOf_singleton_go_guarded (hr : ranked env = true) (hc : closed env = true) (t : NodeId)
+    (hn : env.st.get? s = some n) (hk : Laws.keywords n = { allOf := some [t] }) (ht : t < env.st.size)
+    (hf : (Json.depth j + 1) * (maxRank env + 1) ≤ fuel) :
+    (Go.validateFuel env (fuel + 1) stack (GoVal.ofJson j) s).verdict
+      = (Go.validateFuel env fuel (stack ++ [s]) (GoVal.ofJson j) t).verdict :=
+  (allOf_singleton_go env hwf hst fuel stack hstack s n j hj t hn hk
+    (spec_defined env hr hc fuel (stack ++ [s]) t j ht hf)).1
+
+end laws_go
+
+/-! ### the laws instantiated
+
+One store with the schema objects the laws speak of; node 2 is `{"title": "s", "properties": {"a": {"type": "string"}}}`,
+which accepts `{"a": "x"}` evaluating `a`, and rejects `{"a": 1}`. -/
+
+def lawStore : Store := #[
+  /- 0 -/ {},
+  /- 1 -/ { not := some 0 },
+  /- 2 -/ { title := "s", properties := some [("a", 3)] },
+  /- 3 -/ { type := "string" },
+  /- 4 -/ { allOf := some [2], defs := some [("x", 3)] },
+  /- 5 -/ { anyOf := some [2], description := "one branch" },
+  /- 6 -/ { oneOf := some [2] },
+  /- 7 -/ { allOf := some [] },
+  /- 8 -/ { anyOf := some [] },
+  /- 9 -/ { oneOf := some [] },
+  /- 10 -/ { not := some 11 },
+  /- 11 -/ { not := some 2 },
+  /- 12 -/ { oneOf := some [2, 2] },
+  /- 13 -/ { anyOf := some [2, 3], minProperties := some 1 },
+  /- 14 -/ { if_ := some 3, then_ := some 15, else_ := some 2 },
+  /- 15 -/ { maxLength := some 1 },
+  /- 16 -/ { if_ := some 2 },
+  /- 17 -/ { const := some (.num 1) },
+  /- 18 -/ { enum := some [.num 1] },
+  /- 19 -/ { type := "integer" },
+  /- 20 -/ { type := "number" },
+  /- 21 -/ { types := some ["string"], enum := some [.str "x", .str "y", .str "x"], title := "t" },
+  /- 22 -/ { allOf := some [13], unevaluatedProperties := some 1 },
+  /- 23 -/ { const := some (.str "x"), maxLength := some 3 },
+  /- 24 -/ { allOf := some [23, 21] },
+  /- 25 -/ { type := "object", properties := some [("a", 3)], required := some ["a"], anyOf := some [2, 3] },
+  /- 26 -/ { properties := some [("a", 3)], anyOf := some [2, 3] },
+  /- 27 -/ { type := "object", required := some ["a"], comment := "the rest of 25" },
+  /- 28 -/ { allOf := some [26, 27] },
+  /- 29 -/ { properties := some [("a", 0)], additionalProperties := some 1 },
+  /- 30 -/ { properties := some [("a", 0)] },
+  /- 31 -/ { additionalProperties := some 1 },
+  /- 32 -/ { prefixItems := some [3], items := some 1 },
+  /- 33 -/ { prefixItems := some [3] },
+  /- 34 -/ { items := some 1 },
+  /- 35 -/ { properties := some [("a", 0)], unevaluatedProperties := some 1 },
+  /- 36 -/ { unevaluatedProperties := some 1 },
+  /- 37 -/ { ref := "#/$defs/s", defs := some [("s", 2)] },
+  /- 38 -/ { oneOf := some [3, 2] } ]
+
+def lawEnv : VEnv :=
+  { st := lawStore, draft := .d2020,
+    infos := (List.range lawStore.size).map fun i =>
+      (i, { base := some 0, resolvedRef := if i = 37 then some 2 else none }),
+    reMatch := fun _ _ => false, hash := fun _ => 0 }
+
+theorem lawEnv_wf : EnvWF lawEnv := EnvWF_of_checks lawEnv (by decide) (by decide) (fun _ _ _ => rfl)
+theorem lawEnv_store : StoreWF lawEnv.st := StoreWF_of_check _ (by decide)
+
+def lawGood : Json := .obj [("a", .str "x")]
+def lawBad : Json := .obj [("a", .num 1)]
+
+/-- 1: `{}` (node 0) and `{"not": {}}` (node 1) -/
+example : Spec.evalFuel (specEnvOf lawEnv) 1 [] 0 lawBad = some (some {}) := true_accepts _ 0 [] 0 _ lawBad rfl rfl
+example : Spec.evalFuel (specEnvOf lawEnv) 2 [] 1 lawGood = some none := false_rejects _ 0 [] 1 _ lawGood 0 _ rfl rfl rfl rfl
+example : Go.validateFuel lawEnv 2 [] (GoVal.ofJson lawGood) 1 = .err :=
+  false_rejects_go lawEnv lawEnv_wf lawEnv_store 0 [] (fun _ h => nomatch h) 1 _ lawGood (by decide) 0 _ rfl rfl rfl rfl
+example : (Go.validateFuel lawEnv 1 [] (GoVal.ofJson lawBad) 0).verdict = some true := by decide
+
+/-- 2: `allOf [s]` (node 4, which also carries `$defs`), `anyOf [s]` (node 5), `oneOf [s]` (node 6) against `s` (node 2) -/
+example : Spec.evalFuel (specEnvOf lawEnv) 3 [] 4 lawGood = Spec.evalFuel (specEnvOf lawEnv) 2 [4] 2 lawGood :=
+  allOf_singleton _ 2 [] 4 _ lawGood 2 rfl rfl
+example : Spec.evalFuel (specEnvOf lawEnv) 3 [] 4 lawGood = some (some { props := ["a"] }) := by rfl
+example : Spec.evalFuel (specEnvOf lawEnv) 3 [] 5 lawBad = Spec.evalFuel (specEnvOf lawEnv) 2 [5] 2 lawBad :=
+  anyOf_singleton _ 2 [] 5 _ lawBad 2 rfl rfl
+example : Spec.evalFuel (specEnvOf lawEnv) 3 [] 5 lawBad = some none := by rfl
+example : Spec.evalFuel (specEnvOf lawEnv) 3 [] 6 lawGood = Spec.evalFuel (specEnvOf lawEnv) 2 [6] 2 lawGood :=
+  oneOf_singleton _ 2 [] 6 _ lawGood 2 rfl rfl
+example : (Go.validateFuel lawEnv 3 [] (GoVal.ofJson lawGood) 4).verdict
+    = (Go.validateFuel lawEnv 2 [4] (GoVal.ofJson lawGood) 2).verdict :=
+  (allOf_singleton_go lawEnv lawEnv_wf lawEnv_store 2 [] (fun _ h => nomatch h) 4 _ lawGood (by decide) 2 rfl rfl
+    (by decide)).1
+example : (Go.validateFuel lawEnv 3 [] (GoVal.ofJson lawGood) 4).verdict = some true := by decide
+example : (Go.validateFuel lawEnv 3 [] (GoVal.ofJson lawBad) 5).verdict
+    = (Go.validateFuel lawEnv 2 [5] (GoVal.ofJson lawBad) 2).verdict :=
+  (anyOf_singleton_go lawEnv lawEnv_wf lawEnv_store 2 [] (fun _ h => nomatch h) 5 _ lawBad (by decide) 2 rfl rfl
+    (by decide)).1
+example : (Go.validateFuel lawEnv 3 [] (GoVal.ofJson lawBad) 6).verdict
+    = (Go.validateFuel lawEnv 2 [6] (GoVal.ofJson lawBad) 2).verdict :=
+  (oneOf_singleton_go lawEnv lawEnv_wf lawEnv_store 2 [] (fun _ h => nomatch h) 6 _ lawBad (by decide) 2 rfl rfl
+    (by decide)).1
+example : Spec.evalFuel (specEnvOf lawEnv) 1 [] 7 lawBad = some (some {}) := allOf_empty _ 0 [] 7 _ lawBad rfl rfl
+example : Spec.evalFuel (specEnvOf lawEnv) 1 [] 8 lawGood = some none := anyOf_empty _ 0 [] 8 _ lawGood rfl rfl
+example : Spec.evalFuel (specEnvOf lawEnv) 1 [] 9 lawGood = some none := oneOf_empty _ 0 [] 9 _ lawGood rfl rfl
+example : (Go.validateFuel lawEnv 1 [] (GoVal.ofJson lawGood) 8).verdict = some false :=
+  anyOf_empty_go lawEnv lawEnv_wf lawEnv_store 0 [] (fun _ h => nomatch h) 8 _ lawGood (by decide) rfl rfl
+
+/-- 3: `not (not s)` (node 10 → 11 → 2): valid with NOTHING evaluated where `s` is valid evaluating `a` -/
+example : Spec.evalFuel (specEnvOf lawEnv) 4 [] 10 lawGood
+    = (Spec.evalFuel (specEnvOf lawEnv) 2 [10, 11] 2 lawGood).map fun r => r.map fun _ => {} :=
+  not_not _ 2 [] 10 _ lawGood 11 _ 2 rfl rfl rfl rfl
+example : Spec.evalFuel (specEnvOf lawEnv) 4 [] 10 lawGood = some (some {}) := by rfl
+example : Spec.evalFuel (specEnvOf lawEnv) 2 [10, 11] 2 lawGood = some (some { props := ["a"] }) := by rfl
+example : (Go.validateFuel lawEnv 4 [] (GoVal.ofJson lawBad) 10).verdict
+    = (Go.validateFuel lawEnv 2 [10, 11] (GoVal.ofJson lawBad) 2).verdict :=
+  not_not_go lawEnv lawEnv_wf lawEnv_store 2 [] (fun _ h => nomatch h) 10 _ lawBad (by decide) 11 _ 2 rfl rfl rfl rfl
+    (by decide)
+example : (Go.validateFuel lawEnv 4 [] (GoVal.ofJson lawBad) 10).verdict = some false := by decide
+
+/-- 4: node 22 is `{"allOf": [13], "unevaluatedProperties": false}` with 13 = `{"anyOf": [s, {"type": "string"}], "minProperties": 1}`;
+    rewriting the `anyOf` of node 13 into `[3, 2, 3]` changes nothing for the root 22 -/
+example : (Spec.evalFuel { specEnvOf lawEnv with st := (lawStore.setIfInBounds 13
+      { anyOf := some [3, 2, 3], minProperties := some 1 }) } 5 [] 22 lawGood).map (·.isSome)
+    = (Spec.evalFuel (specEnvOf lawEnv) 5 [] 22 lawGood).map (·.isSome) :=
+  anyOf_set_invariant (specEnvOf lawEnv) 5 [] 13 _ lawGood lawEnv_store [2, 3] [3, 2, 3] rfl rfl
+    (by intro t; simp only [List.mem_cons, List.mem_nil_iff, or_false]; grind) 22 (by decide)
+example : (Spec.evalFuel (specEnvOf lawEnv) 5 [] 22 lawGood).map (·.isSome) = some true := by decide
+example : (Spec.evalFuel (specEnvOf lawEnv) 5 [] 22 (.obj [("a", .str "x"), ("b", .null)])).map (·.isSome) = some false := by
+  decide
+example : (Go.validateFuel { lawEnv with st := lawStore.setIfInBounds 13 { anyOf := some [3, 2, 3], minProperties := some 1 } }
+      5 [] (GoVal.ofJson lawGood) 22).verdict = (Go.validateFuel lawEnv 5 [] (GoVal.ofJson lawGood) 22).verdict :=
+  anyOf_set_invariant_go lawEnv lawEnv_wf lawEnv_store 5 [] (fun _ h => nomatch h) 13 _ lawGood (by decide) [2, 3] [3, 2, 3]
+    rfl rfl (by intro t; simp only [List.mem_cons, List.mem_nil_iff, or_false]; grind) 22 (by decide)
+/-- `oneOf [s, s]` (node 12) rejects what `s` accepts, while `oneOf [s]` (node 6) accepts it: `oneOf` is NOT invariant
+    under repetition -/
+example : Spec.evalFuel (specEnvOf lawEnv) 3 [] 12 lawGood = (Spec.evalFuel (specEnvOf lawEnv) 2 [12] 2 lawGood).map fun _ => none :=
+  oneOf_double_rejects _ 2 [] 12 _ lawGood 2 rfl rfl
+example : Spec.evalFuel (specEnvOf lawEnv) 3 [] 12 lawGood = some none := by rfl
+example : (Spec.evalFuel (specEnvOf lawEnv) 3 [] 6 lawGood).map (·.isSome) = some true := by decide
+example : Go.validateFuel lawEnv 3 [] (GoVal.ofJson lawGood) 12 = .err :=
+  oneOf_double_rejects_go lawEnv lawEnv_wf lawEnv_store 2 [] (fun _ h => nomatch h) 12 _ lawGood (by decide) 2 rfl rfl
+    (by decide)
+
+/-- 5: node 14 is `{"if": {"type": "string"}, "then": {"maxLength": 1}, "else": s}` -/
+example : (Spec.evalFuel (specEnvOf lawEnv) 3 [] 14 (.str "xy")).map (·.isSome) = some ((true && false) || (!true && true)) :=
+  if_then_else_verdict _ 2 [] 14 _ (.str "xy") 3 15 2 (some {}) none (some {}) rfl rfl (by rfl) (by rfl) (by rfl)
+example : Spec.evalFuel (specEnvOf lawEnv) 3 [] 14 lawGood = Spec.evalFuel (specEnvOf lawEnv) 2 [14] 2 lawGood :=
+  if_false_else _ 2 [] 14 _ lawGood 3 2 _ rfl rfl (by rfl)
+example : Spec.evalFuel (specEnvOf lawEnv) 3 [] 14 (.str "x")
+    = (Spec.evalFuel (specEnvOf lawEnv) 2 [14] 15 (.str "x")).map fun rt => rt.map fun evt => Spec.Ev.union {} evt :=
+  if_true_then _ 2 [] 14 _ (.str "x") 3 15 _ {} rfl rfl (by rfl)
+/-- node 16 is `{"if": s}`: accepts the instance `s` rejects, and keeps what `s` evaluated on the one it accepts -/
+example : Spec.evalFuel (specEnvOf lawEnv) 3 [] 16 lawBad
+    = (Spec.evalFuel (specEnvOf lawEnv) 2 [16] 2 lawBad).map fun rc => some (rc.getD {}) :=
+  if_alone _ 2 [] 16 _ lawBad 2 rfl rfl
+example : Spec.evalFuel (specEnvOf lawEnv) 3 [] 16 lawBad = some (some {}) := by rfl
+example : Spec.evalFuel (specEnvOf lawEnv) 3 [] 16 lawGood = some (some { props := ["a"] }) := by rfl
+example : (Go.validateFuel lawEnv 3 [] (GoVal.ofJson lawBad) 16).verdict = some true :=
+  if_alone_go lawEnv lawEnv_wf lawEnv_store 2 [] (fun _ h => nomatch h) 16 _ lawBad (by decide) 2 rfl rfl (by decide)
+
+/-- 6: `{"const": 1}` (17) against `{"enum": [1]}` (18), on `1.0` and on `"1"` -/
+example : Spec.evalFuel (specEnvOf lawEnv) 1 [] 17 (.num 1) = Spec.evalFuel (specEnvOf lawEnv) 1 [5] 18 (.num 1) :=
+  const_enum_singleton _ 0 [] 17 _ (.num 1) (.num 1) 18 _ [5] rfl rfl rfl rfl
+example : (Go.validateFuel lawEnv 1 [] (GoVal.ofJson (.str "1")) 17).verdict
+    = (Go.validateFuel lawEnv 1 [] (GoVal.ofJson (.str "1")) 18).verdict :=
+  const_enum_singleton_go lawEnv lawEnv_wf lawEnv_store 0 [] (fun _ h => nomatch h) 17 _ (.str "1") (by decide) (.num 1) 18 _ []
+    (fun _ h => nomatch h) rfl rfl rfl rfl
+/-- in context: node 23 is `{"const": "x", "maxLength": 3}` under the root 24 = `{"allOf": [23, 21]}` -/
+example : Spec.evalFuel { specEnvOf lawEnv with st := lawStore.setIfInBounds 23 { enum := some [.str "x"], maxLength := some 3 } }
+      4 [] 24 (.str "x") = Spec.evalFuel (specEnvOf lawEnv) 4 [] 24 (.str "x") :=
+  const_enum_singleton_in_context (specEnvOf lawEnv) 4 [] 23 _ (.str "x") (.str "x") rfl rfl rfl 24
+example : (Spec.evalFuel (specEnvOf lawEnv) 4 [] 24 (.str "x")).map (·.isSome) = some true := by decide
+/-- node 21 is `{"type": ["string"], "enum": ["x", "y", "x"]}`: the `enum` deduplicated and reordered, the `type` unwrapped -/
+example : Spec.evalFuel { specEnvOf lawEnv with st := (lawStore.setIfInBounds 21
+      { types := some ["string"], enum := some [.str "y", .str "x"], title := "t" }) } 4 [] 24 (.str "y")
+    = Spec.evalFuel (specEnvOf lawEnv) 4 [] 24 (.str "y") :=
+  enum_set_invariant (specEnvOf lawEnv) 4 [] 21 _ (.str "y") [.str "x", .str "y", .str "x"] [.str "y", .str "x"] rfl rfl
+    (by intro v; simp only [List.mem_cons, List.mem_nil_iff, or_false]; grind) 24
+example : Spec.evalFuel { specEnvOf lawEnv with st := (lawStore.setIfInBounds 21
+      { type := "string", enum := some [.str "x", .str "y", .str "x"], title := "t" }) } 4 [] 24 (.str "y")
+    = Spec.evalFuel (specEnvOf lawEnv) 4 [] 24 (.str "y") :=
+  type_singleton (specEnvOf lawEnv) 4 [] 21 _ (.str "y") "string" (by decide) rfl rfl rfl 24
+/-- `2` is an integer (19), hence a number (20); `2.5` is a number only -/
+example : Spec.evalFuel (specEnvOf lawEnv) 1 [] 20 (.num 2) = some (some {}) :=
+  type_integer_number _ 0 [] 19 _ (.num 2) 20 _ [] rfl rfl rfl rfl (by rfl)
+example : (Spec.evalFuel (specEnvOf lawEnv) 1 [] 19 (.num (5 / 2))).map (·.isSome) = some false
+    ∧ (Spec.evalFuel (specEnvOf lawEnv) 1 [] 20 (.num (5 / 2))).map (·.isSome) = some true := by decide +kernel
+example : (Go.validateFuel lawEnv 1 [] (GoVal.ofJson (.num 2)) 20).verdict = some true :=
+  type_integer_number_go lawEnv lawEnv_wf lawEnv_store 0 [] (fun _ h => nomatch h) 19 _ (.num 2) (by decide) 20 _ []
+    (fun _ h => nomatch h) rfl rfl rfl rfl (by decide)
+
+/-- 7: node 25 = `{"type": "object", "properties": {"a": …}, "required": ["a"], "anyOf": […]}` against node 26 (its
+    `properties` and `anyOf`) and node 27 (its `type` and `required`), all of one schema resource -/
+def lawSel : Laws.Group → Bool := fun g => g == .props || g == .anyOf
+
+theorem lawScope (a b : NodeId) (ha : a < lawStore.size) (hb : b < lawStore.size) :
+    Laws.ScopeEqv (specEnvOf lawEnv) ([] ++ [a]) ([] ++ [b]) := by
+  have hres : ∀ x, x < lawStore.size → (specEnvOf lawEnv).resource x = some 0 := by decide
+  exact Laws.ScopeEqv_same_resource (specEnvOf lawEnv) (some 0) [] [a] [b] (by simp) (by simp)
+    (by intro x hx; simp at hx; subst hx; exact hres x ha) (by intro x hx; simp at hx; subst hx; exact hres x hb)
+
+example : (Spec.evalFuel (specEnvOf lawEnv) 3 [] 25 lawGood).map (·.isSome)
+    = Laws.verdict2 (Spec.evalFuel (specEnvOf lawEnv) 3 [] 26 lawGood) (Spec.evalFuel (specEnvOf lawEnv) 3 [] 27 lawGood) :=
+  adjacent_keywords_verdict (specEnvOf lawEnv) 2 [] 25 _ lawGood 26 27 _ _ lawSel rfl rfl rfl rfl rfl ⟨rfl, rfl⟩ rfl rfl
+    (lawScope 26 25 (by decide) (by decide)) (lawScope 27 25 (by decide) (by decide))
+example : (Spec.evalFuel (specEnvOf lawEnv) 3 [] 25 lawGood).map (·.isSome) = some true := by decide
+/-- `{"a": 1}`: the `properties` half rejects, the `type`/`required` half accepts, the whole rejects -/
+example : ∃ b1 b2, (Go.validateFuel lawEnv 3 [] (GoVal.ofJson lawBad) 26).verdict = some b1 ∧
+    (Go.validateFuel lawEnv 3 [] (GoVal.ofJson lawBad) 27).verdict = some b2 ∧
+    (Go.validateFuel lawEnv 3 [] (GoVal.ofJson lawBad) 25).verdict = some (b1 && b2) :=
+  adjacent_keywords_go lawEnv lawEnv_wf lawEnv_store 2 [] (fun _ h => nomatch h) 25 _ lawBad (by decide) 26 27 _ _ lawSel
+    rfl rfl rfl rfl rfl ⟨rfl, rfl⟩ rfl rfl (lawScope 26 25 (by decide) (by decide)) (lawScope 27 25 (by decide) (by decide))
+    (by decide) (by decide)
+example : (Go.validateFuel lawEnv 3 [] (GoVal.ofJson lawBad) 26).verdict = some false
+    ∧ (Go.validateFuel lawEnv 3 [] (GoVal.ofJson lawBad) 27).verdict = some true
+    ∧ (Go.validateFuel lawEnv 3 [] (GoVal.ofJson lawBad) 25).verdict = some false := by decide
+/-- equivalently `allOf [26, 27]` (node 28) -/
+example : Spec.evalFuel (specEnvOf lawEnv) 4 [] 28 lawGood
+    = Laws.oconj2 (Spec.evalFuel (specEnvOf lawEnv) 3 [28] 26 lawGood) (Spec.evalFuel (specEnvOf lawEnv) 3 [28] 27 lawGood) :=
+  allOf_pair _ 3 [] 28 _ lawGood 26 27 rfl rfl
+/-- one step, any recursive calls: the store with node 25 reduced to the selected groups / to the others -/
+example (rec : Spec.Rec) : Inv.OutSim (Spec.evalStep (specEnvOf lawEnv) rec [] 25 lawGood)
+    (Laws.oconj2
+      (Spec.evalStep { specEnvOf lawEnv with st := lawStore.setIfInBounds 25 (Laws.pick lawSel (lawStore.getD 25 {})) }
+        rec [] 25 lawGood)
+      (Spec.evalStep { specEnvOf lawEnv with
+          st := lawStore.setIfInBounds 25 (Laws.pick (fun g => !lawSel g) (lawStore.getD 25 {})) } rec [] 25 lawGood)) :=
+  adjacent_keywords_step (specEnvOf lawEnv) [] 25 _ lawGood rec lawSel rfl ⟨rfl, rfl⟩ (Or.inl rfl)
+
+/-- **Where the law does NOT hold** — keywords of one group split apart.  `additionalProperties` reads the adjacent
+    `properties`: `{"properties": {"a": {}}, "additionalProperties": false}` (29) accepts `{"a": "x"}`, while
+    `{"additionalProperties": false}` alone (31) rejects it — the whole is not the conjunction of 30 and 31 -/
+example : (Spec.evalFuel (specEnvOf lawEnv) 4 [] 29 lawGood).map (·.isSome) = some true
+    ∧ (Spec.evalFuel (specEnvOf lawEnv) 4 [] 30 lawGood).map (·.isSome) = some true
+    ∧ (Spec.evalFuel (specEnvOf lawEnv) 4 [] 31 lawGood).map (·.isSome) = some false := by decide
+example : (Go.validateFuel lawEnv 4 [] (GoVal.ofJson lawGood) 29).verdict = some true
+    ∧ (Go.validateFuel lawEnv 4 [] (GoVal.ofJson lawGood) 31).verdict = some false := by decide
+/-- `items` reads the adjacent `prefixItems`: `{"prefixItems": [{"type": "string"}], "items": false}` (32) accepts `["x"]`,
+    `{"items": false}` alone (34) rejects it -/
+example : (Spec.evalFuel (specEnvOf lawEnv) 4 [] 32 (.arr [.str "x"])).map (·.isSome) = some true
+    ∧ (Spec.evalFuel (specEnvOf lawEnv) 4 [] 33 (.arr [.str "x"])).map (·.isSome) = some true
+    ∧ (Spec.evalFuel (specEnvOf lawEnv) 4 [] 34 (.arr [.str "x"])).map (·.isSome) = some false := by decide
+/-- `unevaluatedProperties` reads everything: `{"properties": {"a": {}}, "unevaluatedProperties": false}` (35) accepts
+    `{"a": "x"}`, `{"unevaluatedProperties": false}` alone (36) rejects it -/
+example : (Spec.evalFuel (specEnvOf lawEnv) 4 [] 35 lawGood).map (·.isSome) = some true
+    ∧ (Spec.evalFuel (specEnvOf lawEnv) 4 [] 36 lawGood).map (·.isSome) = some false := by decide
+/-- the scope laws: the wrapper 4 = `allOf [2]` is of the schema resource of node 2 -/
+example : Spec.evalFuel (specEnvOf lawEnv) 3 [] 4 lawGood = Spec.evalFuel (specEnvOf lawEnv) 2 [] 2 lawGood :=
+  allOf_singleton_same_resource _ 2 [] 4 _ lawGood 2 rfl rfl rfl
+example : Spec.evalFuel (specEnvOf lawEnv) 4 [] 10 lawGood
+    = (Spec.evalFuel (specEnvOf lawEnv) 2 [] 2 lawGood).map fun r => r.map fun _ => {} :=
+  not_not_same_resource _ 2 [] 10 _ lawGood 11 _ 2 rfl rfl rfl rfl rfl rfl
+
+/-- 9: node 37 is `{"$ref": "#/$defs/s", "$defs": {"s": …}}`, resolved to node 2 -/
+example : Spec.evalFuel (specEnvOf lawEnv) 3 [] 37 lawGood = Spec.evalFuel (specEnvOf lawEnv) 2 [37] 2 lawGood :=
+  ref_is_target _ 2 [] 37 _ lawGood "#/$defs/s" 2 rfl rfl rfl (by decide) rfl
+example : Spec.evalFuel (specEnvOf lawEnv) 3 [] 37 lawGood = Spec.evalFuel (specEnvOf lawEnv) 2 [] 2 lawGood :=
+  ref_is_target_same_resource _ 2 [] 37 _ lawGood "#/$defs/s" 2 rfl rfl rfl (by decide) rfl rfl
+example : Spec.evalFuel (specEnvOf lawEnv) 3 [] 37 lawGood = some (some { props := ["a"] }) := by rfl
+example : (Go.validateFuel lawEnv 3 [] (GoVal.ofJson lawBad) 37).verdict
+    = (Go.validateFuel lawEnv 2 [37] (GoVal.ofJson lawBad) 2).verdict :=
+  (ref_is_target_go lawEnv lawEnv_wf lawEnv_store 2 [] (fun _ h => nomatch h) 37 _ lawBad (by decide) "#/$defs/s" 2 rfl rfl
+    rfl (by decide) _ rfl rfl (by decide)).1
+example : (Go.validateFuel lawEnv 3 [] (GoVal.ofJson lawBad) 37).verdict = some false := by decide
+
+/-- `allOf_singleton_go_guarded`: `lawEnv` is ranked and closed; fuel `(1 + 1) * (maxRank + 1)` for node 2 -/
+example : ranked lawEnv = true ∧ closed lawEnv = true := by decide
+example : (Go.validateFuel lawEnv ((1 + 1) * (maxRank lawEnv + 1) + 1) [] (GoVal.ofJson lawGood) 4).verdict
+    = (Go.validateFuel lawEnv ((1 + 1) * (maxRank lawEnv + 1)) [4] (GoVal.ofJson lawGood) 2).verdict :=
+  allOf_singleton_go_guarded lawEnv lawEnv_wf lawEnv_store _ [] (fun _ h => nomatch h) 4 _ lawGood (by decide) (by decide)
+    (by decide) 2 rfl rfl (by decide) (by decide)
+
+/-! ### the remaining laws instantiated -/
+
+example : (Spec.evalFuel (specEnvOf lawEnv) 4 [] 10 lawBad).map (·.isSome)
+    = (Spec.evalFuel (specEnvOf lawEnv) 2 [10, 11] 2 lawBad).map (·.isSome) :=
+  not_not_verdict _ 2 [] 10 _ lawBad 11 _ 2 rfl rfl rfl rfl
+example : ∃ a, Go.validateFuel lawEnv 1 [] (GoVal.ofJson lawBad) 0 = .ok a ∧
+    (∀ k, k ∈ keysOf lawBad → γprop a k = false) ∧ (∀ i, i < lenOf lawBad → γitem a i = false) :=
+  true_accepts_go lawEnv lawEnv_wf lawEnv_store 0 [] (fun _ h => nomatch h) 0 _ lawBad (by decide) rfl rfl
+example : (Go.validateFuel lawEnv 1 [] (GoVal.ofJson lawBad) 7).verdict = some true :=
+  allOf_empty_go lawEnv lawEnv_wf lawEnv_store 0 [] (fun _ h => nomatch h) 7 _ lawBad (by decide) rfl rfl
+example : (Go.validateFuel lawEnv 1 [] (GoVal.ofJson lawGood) 9).verdict = some false :=
+  oneOf_empty_go lawEnv lawEnv_wf lawEnv_store 0 [] (fun _ h => nomatch h) 9 _ lawGood (by decide) rfl rfl
+
+/-- 4: the evaluated sets under the rewritten `anyOf` of node 13 are the same sets; `allOf [13]` of node 22 doubled;
+    `oneOf [2, 2]` of node 12 is its own permutation -/
+example (e e' : Spec.Ev) (h1 : Spec.evalFuel (specEnvOf lawEnv) 5 [] 22 lawGood = some (some e))
+    (h2 : Spec.evalFuel { specEnvOf lawEnv with st := (lawStore.setIfInBounds 13
+      { anyOf := some [3, 2, 3], minProperties := some 1 }) } 5 [] 22 lawGood = some (some e')) :
+    (∀ k, k ∈ e.props ↔ k ∈ e'.props) ∧ (∀ i, i ∈ e.items ↔ i ∈ e'.items) :=
+  anyOf_set_invariant_evaluated (specEnvOf lawEnv) 5 [] 13 _ lawGood lawEnv_store [2, 3] [3, 2, 3] rfl rfl
+    (by intro t; simp only [List.mem_cons, List.mem_nil_iff, or_false]; grind) 22 (by decide) e e' h1 h2
+example : (Spec.evalFuel { specEnvOf lawEnv with st := (lawStore.setIfInBounds 22
+      { allOf := some [13, 13], unevaluatedProperties := some 1 }) } 5 [] 22 lawGood).map (·.isSome)
+    = (Spec.evalFuel (specEnvOf lawEnv) 5 [] 22 lawGood).map (·.isSome) :=
+  allOf_set_invariant (specEnvOf lawEnv) 5 [] 22 _ lawGood lawEnv_store [13] [13, 13] rfl rfl
+    (by intro t; simp only [List.mem_cons, List.mem_nil_iff, or_false]; grind) 22 (by decide)
+example : (Go.validateFuel { lawEnv with st := (lawStore.setIfInBounds 22
+      { allOf := some [13, 13], unevaluatedProperties := some 1 }) } 5 [] (GoVal.ofJson lawGood) 22).verdict
+    = (Go.validateFuel lawEnv 5 [] (GoVal.ofJson lawGood) 22).verdict :=
+  allOf_set_invariant_go lawEnv lawEnv_wf lawEnv_store 5 [] (fun _ h => nomatch h) 22 _ lawGood (by decide) [13] [13, 13]
+    rfl rfl (by intro t; simp only [List.mem_cons, List.mem_nil_iff, or_false]; grind) 22 (by decide)
+/-- node 38 is `{"oneOf": [{"type": "string"}, s]}`, reversed -/
+example : (Spec.evalFuel { specEnvOf lawEnv with st := (lawStore.setIfInBounds 38 { oneOf := some [2, 3] }) } 4 [] 38
+      lawGood).map (·.isSome) = (Spec.evalFuel (specEnvOf lawEnv) 4 [] 38 lawGood).map (·.isSome) :=
+  oneOf_perm_invariant (specEnvOf lawEnv) 4 [] 38 _ lawGood lawEnv_store [3, 2] [2, 3] rfl rfl
+    (List.Perm.swap 2 3 []) 38 (by decide)
+example : (Go.validateFuel { lawEnv with st := lawStore.setIfInBounds 38 { oneOf := some [2, 3] } } 4 []
+      (GoVal.ofJson lawGood) 38).verdict = (Go.validateFuel lawEnv 4 [] (GoVal.ofJson lawGood) 38).verdict :=
+  oneOf_perm_invariant_go lawEnv lawEnv_wf lawEnv_store 4 [] (fun _ h => nomatch h) 38 _ lawGood (by decide) [3, 2] [2, 3]
+    rfl rfl (List.Perm.swap 2 3 []) 38 (by decide)
+
+/-- 5 -/
+example : Spec.evalFuel (specEnvOf lawEnv) 3 [] 16 lawBad ≠ some none :=
+  if_alone_never_rejects _ 2 [] 16 _ lawBad 2 rfl rfl
+example : ∃ vc vt ve, (Go.validateFuel lawEnv 2 [14] (GoVal.ofJson (.str "xy")) 3).verdict = some vc ∧
+    (Go.validateFuel lawEnv 2 [14] (GoVal.ofJson (.str "xy")) 15).verdict = some vt ∧
+    (Go.validateFuel lawEnv 2 [14] (GoVal.ofJson (.str "xy")) 2).verdict = some ve ∧
+    (Go.validateFuel lawEnv 3 [] (GoVal.ofJson (.str "xy")) 14).verdict = some ((vc && vt) || (!vc && ve)) :=
+  if_then_else_verdict_go lawEnv lawEnv_wf lawEnv_store 2 [] (fun _ h => nomatch h) 14 _ (.str "xy") (by decide) 3 15 2
+    rfl rfl (by decide) (by decide) (by decide)
+
+/-- 6 -/
+example : (Go.validateFuel { lawEnv with st := lawStore.setIfInBounds 23 { enum := some [.str "x"], maxLength := some 3 } }
+      4 [] (GoVal.ofJson (.str "x")) 24).verdict = (Go.validateFuel lawEnv 4 [] (GoVal.ofJson (.str "x")) 24).verdict :=
+  const_enum_singleton_in_context_go lawEnv lawEnv_wf lawEnv_store 4 [] (fun _ h => nomatch h) 23 _ (.str "x") (by decide)
+    (.str "x") rfl rfl rfl 24 (by decide)
+example : (Go.validateFuel { lawEnv with st := (lawStore.setIfInBounds 21
+      { types := some ["string"], enum := some [.str "y", .str "x"], title := "t" }) } 4 [] (GoVal.ofJson (.str "y")) 24).verdict
+    = (Go.validateFuel lawEnv 4 [] (GoVal.ofJson (.str "y")) 24).verdict :=
+  enum_set_invariant_go lawEnv lawEnv_wf lawEnv_store 4 [] (fun _ h => nomatch h) 21 _ (.str "y") (by decide)
+    [.str "x", .str "y", .str "x"] [.str "y", .str "x"] rfl rfl
+    (by intro v; simp only [List.mem_cons, List.mem_nil_iff, or_false]; grind) 24 (by decide)
+example : (Go.validateFuel { lawEnv with st := (lawStore.setIfInBounds 21
+      { type := "string", enum := some [.str "x", .str "y", .str "x"], title := "t" }) } 4 [] (GoVal.ofJson (.str "y")) 24).verdict
+    = (Go.validateFuel lawEnv 4 [] (GoVal.ofJson (.str "y")) 24).verdict :=
+  type_singleton_go lawEnv lawEnv_wf lawEnv_store 4 [] (fun _ h => nomatch h) 21 _ (.str "y") (by decide) "string"
+    (by decide) rfl rfl rfl 24 (by decide)
+
+/-- 7 -/
+example (e e1 e2 : Spec.Ev) (h : Spec.evalFuel (specEnvOf lawEnv) 3 [] 25 lawGood = some (some e))
+    (h1 : Spec.evalFuel (specEnvOf lawEnv) 3 [] 26 lawGood = some (some e1))
+    (h2 : Spec.evalFuel (specEnvOf lawEnv) 3 [] 27 lawGood = some (some e2)) :
+    (∀ k, k ∈ e.props ↔ k ∈ e1.props ∨ k ∈ e2.props) ∧ (∀ i, i ∈ e.items ↔ i ∈ e1.items ∨ i ∈ e2.items) :=
+  adjacent_keywords_evaluated (specEnvOf lawEnv) 2 [] 25 _ lawGood 26 27 _ _ lawSel rfl rfl rfl rfl rfl ⟨rfl, rfl⟩ rfl rfl
+    (lawScope 26 25 (by decide) (by decide)) (lawScope 27 25 (by decide) (by decide)) e e1 e2 h h1 h2
+example : ∃ b1 b2, (Go.validateFuel lawEnv 3 [28] (GoVal.ofJson lawBad) 26).verdict = some b1 ∧
+    (Go.validateFuel lawEnv 3 [28] (GoVal.ofJson lawBad) 27).verdict = some b2 ∧
+    (Go.validateFuel lawEnv 4 [] (GoVal.ofJson lawBad) 28).verdict = some (b1 && b2) :=
+  allOf_pair_go lawEnv lawEnv_wf lawEnv_store 3 [] (fun _ h => nomatch h) 28 _ lawBad (by decide) 26 27 rfl rfl (by decide)
+    (by decide)
+
+/-- the scope: `lawEnv` declares no dynamic anchor -/
+theorem lawEnv_no_dynamic : ∀ r name, (specEnvOf lawEnv).dynDecl r name = none := by
+  intro r name
+  show (lawEnv.info? r).bind _ = none
+  cases h : lawEnv.info? r with
+  | none => rfl
+  | some i =>
+    have hm : (r, i) ∈ lawEnv.infos := lookupNat_mem h
+    have ha : i.anchors = [] := by
+      simp only [lawEnv, List.mem_map] at hm
+      obtain ⟨x, _, hx⟩ := hm
+      cases hx; rfl
+    simp [ha]
+
+example : Spec.evalFuel (specEnvOf lawEnv) 3 [7, 1] 2 lawGood = Spec.evalFuel (specEnvOf lawEnv) 3 [] 2 lawGood :=
+  scope_irrelevant (specEnvOf lawEnv) 3 [7, 1] 2 lawGood lawEnv_no_dynamic []
+example : Spec.evalFuel (specEnvOf lawEnv) 3 ([7] ++ [4]) 2 lawGood = Spec.evalFuel (specEnvOf lawEnv) 3 [7] 2 lawGood :=
+  scope_wrapper (specEnvOf lawEnv) 3 [7] 2 lawGood 4 rfl
+
+/-- 9: the `$ref` half of node 37 (`Laws.pick` of the group `ref`) is the target, whatever the recursive calls -/
+example (rec : Spec.Rec) :
+    Inv.specBody (specEnvOf lawEnv) rec [] 37 lawGood (Laws.pick (fun g => g == .ref) (lawStore.getD 37 {})) = rec [37] 2 lawGood :=
+  ref_half_is_target (specEnvOf lawEnv) [] 37 _ lawGood rec 2 rfl (by decide) rfl
 
 end JSV.C01
